@@ -12,7 +12,7 @@ from .guardlib import gval, comparisons, lt_true, ge_true
 
 MANIFEST = {
     "text": "Translation validation of tables against independent oracles: 2231 named references vs CPython's html.entities.html5, generated PHF key/value set vs names+prefix closure, C1 table vs cp1252, numeric value function of both tokenizers vs the WHATWG numeric table over an exact integer partition; longest-match bookkeeping compared in normal form with a reviewed reference. A matched name ending in ';' is always decoded and the legacy attribute exception is tested only afterwards, on the character following the match in name_buf (R14.6); the in-attribute flag is true in all three attribute value states and only there (R14.7).",
-    "note": "Decides R14.1-R14.7. Trusted: CPython's entity table and codec, phf lookup, review of the char-ref normal forms. Not decided: run-time behaviour of StrTendril slicing inside finish_named. Also decided: split references wait for input; end() un-consumes into the queue it runs (R14.9). Round 6: end of input per char-ref state (R14.10), hex marker given back as read (R14.11), R14.6 also for xml5ever.",
+    "note": "Decides R14.1-R14.7. Trusted: CPython's entity table and codec, phf lookup, review of the char-ref normal forms. Not decided: run-time behaviour of StrTendril slicing inside finish_named. Also decided: split references wait for input; end() un-consumes into the queue it runs (R14.9). Round 6: end of input per char-ref state (R14.10), hex marker given back as read (R14.11), R14.6 also for xml5ever. Round 8: R14.12 the character-reference sub-tokenizer state by state against a transcription of the WHATWG character reference states (HTML; xml5ever's twin for all states but Begin), finish_named's decoding path, unconsume_name; R14.4 C1 range exact (cp1252 decides which table path is feasible).",
     "technique": 'table equality against independent oracles + decision-tree flattening over an integer partition',
 }
 LEVEL = "translation_validation"
